@@ -26,6 +26,8 @@ func mustInt(s string) int64 {
 type DocCfg struct {
 	Depth   int
 	MaxKids int
+	// MaxMembers, if > 0, bounds the number of members of every object.
+	MaxMembers int
 	Keys    []string
 	Strs    []string
 	Nums    []string
@@ -62,6 +64,9 @@ func doc(r *rand.Rand, c DocCfg, depth int, sb *strings.Builder) {
 		sb.WriteByte(']')
 	case x < 7 && depth > 0:
 		n := r.IntN(c.MaxKids + 1)
+		if c.MaxMembers > 0 && n > c.MaxMembers {
+			n = c.MaxMembers
+		}
 		sb.WriteByte('{')
 		seen := map[string]bool{}
 		first := true
